@@ -545,7 +545,7 @@ TRANSPARENT_CALLS = {
 }
 
 
-def producers(fn, o, _seen=None, _depth=0):
+def producers(fn, o, _seen=None, _depth=0, stop_at_fields=None):
     """Who produced this value: walk back through copies, references, field
     projections and 'transparent' calls (?, clone, into, unwrap ...) to the
     first producing calls / parameters / constants / aggregates. Unlike
@@ -560,9 +560,14 @@ def producers(fn, o, _seen=None, _depth=0):
     p = op_place(o) if isinstance(o, dict) else o
     if p is None:
         return out
+    last_field = None
     for e in p[1]:
         if isinstance(e, dict) and "f" in e and e.get("a"):
             out.add(("field", e["a"], e["n"]))
+            if stop_at_fields is not None and stop_at_fields(e["a"]):
+                last_field = ("field", e["a"], e["n"])
+    if last_field is not None:
+        return {last_field}
     l = p[0]
     if l in seen or _depth > 40:
         return out
@@ -574,9 +579,9 @@ def producers(fn, o, _seen=None, _depth=0):
             r = d[3]["r"]
             kk = r["k"]
             if kk in ("use", "cast", "un", "repeat"):
-                out |= producers(fn, r["o"], seen, _depth + 1)
+                out |= producers(fn, r["o"], seen, _depth + 1, stop_at_fields)
             elif kk in ("ref", "disc", "rawptr"):
-                out |= producers(fn, r["p"], seen, _depth + 1)
+                out |= producers(fn, r["p"], seen, _depth + 1, stop_at_fields)
             elif kk == "bin":
                 out.add(("binop", r["op"]))
             elif kk == "agg":
@@ -584,17 +589,17 @@ def producers(fn, o, _seen=None, _depth=0):
                     out.add(("agg", r["adt"], r["var"]))
                     if r["adt"] in ("core::option::Option", "core::result::Result"):
                         for _n, oo in r["f"]:
-                            out |= producers(fn, oo, seen, _depth + 1)
+                            out |= producers(fn, oo, seen, _depth + 1, stop_at_fields)
                 elif r["ak"] == "tuple":
                     for _n, oo in r["f"]:
-                        out |= producers(fn, oo, seen, _depth + 1)
+                        out |= producers(fn, oo, seen, _depth + 1, stop_at_fields)
                 else:
                     out.add(("agg", r["ak"], ""))
         elif d[0] == "call":
             t = d[2]
             f = t.get("f") or "<indirect>"
             if f in TRANSPARENT_CALLS and t["a"]:
-                out |= producers(fn, t["a"][0], seen, _depth + 1)
+                out |= producers(fn, t["a"][0], seen, _depth + 1, stop_at_fields)
             else:
                 out.add(("call", f, d[1]))
     return out
